@@ -4,6 +4,7 @@ import Driver.Table
 import Driver.Multimap
 import Driver.Hist
 import Driver.Image
+import Driver.Cursor
 /-! Line-protocol driver. First token of each line selects the model. -/
 open Redb.Driver
 
@@ -12,6 +13,7 @@ structure DState where
   tbl : TblState := {}
   mm : MmState := {}
   hist : HistState := {}
+  cur : CurState := {}
 
 def dispatch (st : DState) (line : String) : DState × String :=
   let (req, obs) := splitLine line
@@ -26,6 +28,9 @@ def dispatch (st : DState) (line : String) : DState × String :=
   | "hist" :: rest =>
     let (t, out) := histStep st.hist (rest ++ (if obs.isEmpty then [] else "=>" :: obs))
     ({ st with hist := t }, out)
+  | "cur" :: rest =>
+    let (t, out) := curStep st.cur rest obs
+    ({ st with cur := t }, out)
   | "mm" :: rest =>
     let (t, out) := mmStep st.mm rest obs
     ({ st with mm := t }, out)
